@@ -289,7 +289,9 @@ template <typename D> static std::vector<BinOp<D> > make_ops() {
     OP("limited_congruence_extrapolation_assign(y, cgs of z)", 1, false, TOK(x.limited_congruence_extrapolation_assign(y, z.congruences(), tp)))
     OP("limited_generator_extrapolation_assign(y, cgs of z)", 1, false, TOK(x.limited_generator_extrapolation_assign(y, z.congruences(), tp)))
     OP("add_grid_generators(gs of z)", 0, false, x.add_grid_generators(z.grid_generators()); return 0;)
-    OP("add_congruences(minimized cgs of z)", 0, false, x.add_congruences(z.minimized_congruences()); return 0;) }
+    OP("add_congruences(minimized cgs of z)", 0, false, x.add_congruences(z.minimized_congruences()); return 0;)
+    // (with z == x the argument is a row of the receiver's own generator system, which the insertion reallocates)
+    OP("add_grid_generator(first of z)", 0, false, { const Grid_Generator_System& gs = z.grid_generators(); Grid_Generator_System::const_iterator i = gs.begin(); if (i == gs.end()) return -1; x.add_grid_generator(*i); return 0; }) }
   if constexpr (K<D>::bds || K<D>::oct) {
     OP("CC76_extrapolation_assign", 1, false, TOK(x.CC76_extrapolation_assign(y, tp)))
     OP("BHMZ05_widening_assign", 1, false, TOK(x.BHMZ05_widening_assign(y, tp)))
